@@ -7,7 +7,7 @@ from common import rng
 FAMILY = "ladder"
 HARNESS = {"source": "x_ladder.c", "exclude_objs": ["loop", "parser"], "leak_clean": True}
 ENV = {"VERIF_LEAKCHECK": "1"}
-RULE = ("allloops: cif_container_get_all_loops on 1..8 loops with / without category x every fault position; loophdr: parse_loop on a header of n = 1..6 (15) names + a refused duplicate x every fault position; getpackets: 1, 2, 3, 9 names and 10 names of one uthash bucket x every fault position; nextpacket: packets of 1..10 items with unknown / "
+RULE = ("allloops: cif_container_get_all_loops on 1..8 loops with / without category x every fault position; loophdr: parse_loop on a header of n = 1..6 (9) names + a refused duplicate x every fault position; getpackets: 1, 2, 3, 9 names and 10 names of one uthash bucket x every fault position; nextpacket: packets of 1..10 items with unknown / "
         "text / number / list / table (nested) values, handed over or dropped x every fault position; vclone / vdeser: cif_value_clone / cif_value_deserialize of value trees with tables at any depth (12 hand-picked: empty tables, "
         "table in list in table, a bucket expansion inside a nested table; 25 / 400 random trees of depth <= 3) x every fault position; "
         "namesnorm: n = 1..5 names x every fault position; deser of table blobs: 0, 1, 3 and 11 (one bucket) keys x value "
@@ -209,7 +209,7 @@ def tree_requests(r, tier):
              T((coll[0], T(*[(k, "S") for k in coll[:10]])), (coll[1], "C"))]
     if tier != "quick":
         trees += [T(*[(k, T((coll[0], "C"))) for k in coll[:11]]),  # expansion of the OUTER table while inner tables exist
-                  T(*[("r%d" % i, "S") for i in range(146)])]
+                  T(*[("r%d" % i, "S") for i in range(40)])]     # (MAXEV = 400 events per window bounds the size)
     pool = coll[:6] + ["a", "b", "zz", "e" + chr(0x301)]
     n_rand = 25 if tier == "quick" else 400
     while n_rand > 0:
@@ -298,7 +298,8 @@ def generate(seed, tier):
         for k in range(0, len(fl) + fl.count("c") + 3):
             yield "ladder allloops %s %d" % (fl, k)
     # parse_loop_header + parse_loop's release of the name list: n distinct names and a refused repetition of the first
-    for n in (range(1, 7) if tier == "quick" else range(1, 16)):
+    # (harness/alloc.h records at most MAXEV = 400 events per window: n <= 9 keeps requests + releases below that)
+    for n in (range(1, 7) if tier == "quick" else range(1, 10)):
         total = sum(5 + 3 * i for i in range(n)) + 8
         for k in range(0, total + 2):
             yield "ladder loophdr %d %d" % (n, k)
@@ -362,6 +363,8 @@ def classify(req, impl):
 def oracle(req, impl):
     if not impl.startswith("ld "):
         return None
+    if impl.rstrip().endswith(" overflow") or " overflow " in impl:
+        return "harness limit: more than MAXEV events in the window (the request is too large for this executor)"
     if "!LEAK" in impl:
         return "memory leaked"
     for bad in ("later-insert=", "unreadable@", "size="):
